@@ -161,6 +161,29 @@ class StmtMixin:
                     continue
                 outs += self.setattr_val(o[2], t.attr, v, o[1], t)
             return outs
+        if isinstance(t, ast.Subscript) and isinstance(t.value, ast.Name) and t.value.id in st.env and \
+                st.env[t.value.id].ty in ('kwargs', 'dict'):
+            # d[key] = v on a dictionary held in a local: the local is rebound to the updated dictionary (the caller's
+            # view of the same dictionary object is not modelled; see the assumption on attrs in the search contracts)
+            d = st.env[t.value.id]
+            outs = []
+            for o in self.ev(t.slice, st):
+                if o[0] == 'raise':
+                    outs.append(o)
+                    continue
+                from .calls import _pystr
+                key = _pystr(o[2])
+                if key is None:
+                    raise Unsupported('dictionary store with a symbolic key')
+                if d.ty == 'kwargs':
+                    items = dict(d.a['items'])
+                    items[key] = v
+                    o[1].env[t.value.id] = Val('kwargs', None, items=items)
+                else:
+                    items = [(k_, v_) for k_, v_ in d.a['items'] if _pystr(k_) != key] + [(o[2], v)]
+                    o[1].env[t.value.id] = Val('dict', None, items=items)
+                outs.append(('fall', o[1]))
+            return outs
         raise Unsupported('assignment target ' + type(t).__name__)
 
     def setattr_val(self, recv, attr, v, st, node):
@@ -307,6 +330,8 @@ class StmtMixin:
             h.assume(kv.z >= 0)
             names['_k'] = kv
             h.ghost['_k'] = kv
+            names['_k%d' % k] = kv
+            h.ghost['_k%d' % k] = kv
         ctx_h = self._inv_ctx(h, names)
         for cl in spec.invariant:
             self.assume_clause(h, self.spec.clause(cl.text, ctx_h))
@@ -454,8 +479,11 @@ class StmtMixin:
         if spec is None:
             raise Unsupported('for loop at line %d has no invariant in the sidecar' % s.lineno)
         st.ghost['_k'] = VI(0)
-        h, v0, names = self._loop_prepare(s, st, spec, k, {'_k': VI(0)}, ghost_k=True)
+        kname = '_k%d' % k          # the counter under the loop's own ordinal too (visible to nested loops' invariants)
+        h, v0, names = self._loop_prepare(s, st, spec, k, {'_k': VI(0), kname: VI(0)}, ghost_k=True)
         kv = names['_k']
+        names[kname] = kv
+        h.ghost[kname] = kv
         outs, exits = [], []
         steps = []
         if v.ty == 'range':
@@ -482,7 +510,16 @@ class StmtMixin:
                 if v.a.get('lenbounds'):       # summary of the constant table the item is drawn from
                     lo_, hi_ = v.a['lenbounds']
                     t.fact(And(Length(item.z) >= lo_, Length(item.z) <= hi_))
-                steps.append((t, item))
+                if v.a['elem'] == 'item':
+                    # an element of a node-level view is a wrapped node or a raw text leaf: one path each
+                    from .sorts import Item as _It
+                    tw, tr = self.split(t, _It.is_wrapped(item.z))
+                    if tw is not None:
+                        steps.append((tw, Val('node', _It.node(item.z))))
+                    if tr is not None:
+                        steps.append((tr, VE(_It.leaf(item.z))))
+                else:
+                    steps.append((t, item))
             if v0 is None:
                 v0 = Length(v.z) - kv.z
                 spec_dec = None
@@ -505,7 +542,9 @@ class StmtMixin:
                     if b[0] in ('fall', 'continue'):
                         n2 = dict(names)
                         n2['_k'] = VI(kv.z + 1)
+                        n2[kname] = n2['_k']
                         b[1].ghost['_k'] = n2['_k']
+                        b[1].ghost[kname] = n2['_k']
                         if spec.decreases:
                             self._loop_back(b[1], spec, k, v0, n2)
                         else:
